@@ -300,7 +300,7 @@ impl Shrinker {
         }
         let last = best.scenarios.len() - 1;
         // 1. cheap global simplifications
-        for what in ["yield_off", "rekey_off", "start_at_begin", "hashkey_zero", "no_clock_jumps", "no_exit_ops", "default_stacks"] {
+        for what in ["yield_off", "rekey_off", "start_at_begin", "hashkey_zero", "no_clock_jumps", "no_disk_faults", "no_write_faults", "no_exit_ops", "default_stacks"] {
             let mut c = best.clone();
             {
                 let sc = &mut c.scenarios[last];
@@ -327,6 +327,16 @@ impl Shrinker {
                                 s.clock_jump_ms = 0;
                             }
                         }
+                    }
+                    "no_disk_faults" => {
+                        for t in sc.threads.iter_mut() {
+                            for s in t.steps.iter_mut() {
+                                s.disk_fault = 0;
+                            }
+                        }
+                    }
+                    "no_write_faults" => {
+                        sc.fs_fault = 0;
                     }
                     "no_exit_ops" => {
                         for t in sc.threads.iter_mut() {
